@@ -5,7 +5,9 @@ from pyvc.report import Report
 from pyvc import runner
 
 
-def run_pyvc(pid, tier, seed, only, verbose, setup):
+def run_pyvc(pid, tier, seed, only, verbose, setup, extra=()):
+    """extra: [(contract module, harness-name prefixes)] - harnesses of another property's contract file that this
+    property also rests on (re-run here: a property's check does not rely on another property's check having run)"""
     rep = Report(pid, tier, seed, level="proof")
     rep.checker_cmd = "./check %s --tier %s  (python3-vt -m pyvc.cli; z3 %s, cvc5 fallback)" % (pid, tier, _z3v())
     rep.trusted_base = ["pyvc symbolic executor (A9: its Python semantics)", "z3 / cvc5 (A10)",
@@ -14,6 +16,14 @@ def run_pyvc(pid, tier, seed, only, verbose, setup):
     if only:
         rep.min_obligations = 1
     runner.run_file(rep, "contracts." + pid, only=only, verbose=verbose)
+    for mod, prefixes in extra:
+        if only:
+            pref = ",".join(p for p in prefixes.split(",") if any(p.startswith(o) or o.startswith(p) for o in only.split(",")))
+            if not pref:
+                continue
+        else:
+            pref = prefixes
+        runner.run_file(rep, mod, only=pref, verbose=verbose)
     from pyvc import replay
     replay.attach_replays(rep, seed)
     replay.search_witnesses(rep, seed)
